@@ -801,7 +801,7 @@ Qed.
 
 Lemma inv_step : forall s lab s' o, inv s -> sys_step pref s lab = Some (s', o) -> inv s'.
 Proof.
-  intros s lab s' o [Hm Hl] H. destruct lab as [t op|t c]; cbn [sys_step] in H.
+  intros s lab s' o [Hm Hl] H. destruct lab as [t op|t c|p]; cbn [sys_step] in H.
   - destruct (begin_op op (s_l s t)) as [l'|] eqn:E; [|discriminate]. inversion H; subst; clear H. cbn [s_g s_l].
     split; [exact Hm|]. intros k. cbn [s_g s_l]. unfold upd. destruct (Nat.eqb k t) eqn:Ek.
     + apply Nat.eqb_eq in Ek. subst k. eapply begin_self; [apply Hl | exact E].
@@ -811,6 +811,7 @@ Proof.
     intros k. cbn [s_g s_l]. unfold upd. destruct (Nat.eqb k t) eqn:Ek.
     + apply Nat.eqb_eq in Ek. subst k. eapply step_self; [apply Hl | exact E].
     + apply Nat.eqb_neq in Ek. eapply linv_frame; eauto. eapply step_frame; eauto.
+  - inversion H; subst; clear H. cbn [s_g s_l]. split; [exact Hm|]. intros k. destruct (Hl k) as [A1 A2 A3 A4]. constructor; auto.
 Qed.
 
 Theorem inv_reachable : forall s, reachable pref s -> inv s.
